@@ -3,8 +3,17 @@ import io
 import re
 
 from . import fieldlib as fl
+from . import relib
 
 _counter = [0]
+
+
+def ident_source(rd):
+    """the IDENTIFIER class attribute: the literal, a hand-written regular expression for the literal ("ident_re", reading only),
+    or the rendering of a regular-expression node of the model's language ("ident_pat", harness/relib.py)"""
+    if "ident_pat" in rd:
+        return relib.render(rd["ident_pat"])
+    return rd.get("ident_re", rd["ident"])
 
 
 def mk_register_class(rd, idx, extra=None, base=None):
@@ -12,7 +21,7 @@ def mk_register_class(rd, idx, extra=None, base=None):
     from cfinterface.components.line import Line
     _counter[0] += 1
     # "ident_re": the identifier as the user wrote it when it is a regular expression for the literal text "ident" (reading only)
-    ns = {"IDENTIFIER": rd.get("ident_re", rd["ident"]), "IDENTIFIER_DIGITS": rd["digits"],
+    ns = {"IDENTIFIER": ident_source(rd), "IDENTIFIER_DIGITS": rd["digits"],
           "LINE": Line([fl.mk_field(fd) for fd in rd["fields"]], delimiter=rd.get("delim")), "__slots__": [], "_verif_idx": idx}
     if extra:
         ns.update(extra)
@@ -40,7 +49,8 @@ def mk_file_class(regs, binary=False, encoding=None):
 
 
 def regdef_sx(rd):
-    return [rd["ident"], rd["digits"], [fl.field_sx(fd) for fd in rd["fields"]], [] if rd.get("delim") is None else [rd["delim"]]]
+    base = [rd["ident"], rd["digits"], [fl.field_sx(fd) for fd in rd["fields"]], [] if rd.get("delim") is None else [rd["delim"]]]
+    return base + [[relib.sx(rd["ident_pat"])]] if "ident_pat" in rd else base
 
 
 def canon_elems(data, regs, cap=100000):
@@ -88,6 +98,33 @@ def elems_sx(elems, binary=False):
 
 # ---- generators
 IDENT_POOL = ["A", "AB", "B", "AB ", "X1", "ABC", "Z", "BA", "A1", "1"]
+
+
+def gen_ident_pat(rng, ident):
+    """a regular expression in the place of the literal identifier: anchored, followed by a blank or any character, a class
+    run, the literal at the end of the window, behind optional blanks, an alternation, letter + digit, a bounded repetition,
+    or a generated expression"""
+    k = rng.randrange(10)
+    up = ["cls", False, [[65, 90]]]
+    if k == 0:
+        return ["seq", ["bol"], ["lit", ident]]
+    if k == 1:
+        return ["seq", ["lit", ident], ["s", False]]
+    if k == 2:
+        return ["seq", ["lit", ident[:1]], ["any"]]
+    if k == 3:
+        return ["plus", ["cls", False, [[65, 66]]]]
+    if k == 4:
+        return ["seq", ["lit", ident], ["eol"]]
+    if k == 5:
+        return ["seq", ["bol"], ["seq", ["star", ["s", False]], ["lit", ident]]]
+    if k == 6:
+        return ["alt", ["lit", ident], ["lit", ident[::-1]]]
+    if k == 7:
+        return ["seq", up, ["d", False]]
+    if k == 8:
+        return ["seq", ["bol"], ["rep", up, 2, 1]]
+    return relib.gen_pattern(rng, IDENT_POOL, "AB1XZ C", 2)
 
 
 def gen_regdefs(rng, nmax=4, delim=False, binary=False, same_window=False, sci=True):
@@ -149,6 +186,6 @@ def unambiguous(regdefs, binary=False):
 
 def ref_dispatch(regdefs, line):
     for i, r in enumerate(regdefs):
-        if re.search(r.get("ident_re", r["ident"]), line[: r["digits"]]) is not None:
+        if re.search(ident_source(r), line[: r["digits"]]) is not None:
             return i
     return -1
